@@ -15,7 +15,7 @@ Trees == << << E("a.xml", "xml", 0), E("b.xml", "xml", 0) >>,
             << E("ln.xml", "linkxml", 0), E("d", "dir", 0), E("l2.xml", "linkxml", 2), E("r.xml", "xml", 2) >> >>   \* symbolic links, named and found by -r
 Bools == {TRUE, FALSE}
 Flags == {[a |-> a, m |-> m, n |-> n, r |-> r, t |-> t, e |-> e, u |-> u, q |-> q] :
-            a \in Bools, m \in Bools, n \in Bools, r \in Bools, t \in {"", "xml", "json"}, e \in Bools, u \in Bools, q \in {"ns", "empty", "num"}}
+            a \in Bools, m \in Bools, n \in Bools, r \in Bools, t \in {"", "xml", "json"}, e \in Bools, u \in Bools, q \in {"ns", "empty", "num", "bool", "err", "bad"}}
 Init == ti \in 1..Len(Trees) /\ fl = [none |-> TRUE]
 Next == "none" \in DOMAIN fl /\ fl' \in {f \in Flags : ~(f.a /\ f.m)} /\ ti' = ti
 Ready == "none" \notin DOMAIN fl
@@ -24,7 +24,8 @@ Laws == Ready =>
   /\ \A i \in 1..Len(S) : (S[i].records # "none") => (S[i].visit /\ ~S[i].diag)                 \* output only for files that were read and parsed
   /\ \A i \in 1..Len(S) : (Trees[ti][i].in # 0 /\ ~fl.r) => ~S[i].visit                          \* directories are descended only with -r
   /\ \A i \in 1..Len(S) : fl.n => ~S[i].prefix
-  /\ \A i \in 1..Len(S) : (Trees[ti][i].cls = "stdinxml") => (~S[i].prefix /\ (fl.t = "" => (S[i].diag /\ S[i].records = "none")))   \* stdin: never a prefix, needs -t
-  /\ (fl.q = "empty") => \A i \in 1..Len(S) : S[i].records = "none"
-Emit == (EmitOn /\ Ready) => PrintT(ToJson([fam |-> "C20.cli", tree |-> Trees[ti], flags |-> fl, spec |-> S]))
+  /\ \A i \in 1..Len(S) : (Trees[ti][i].cls = "stdinxml") => (~S[i].prefix /\ ((fl.t = "" /\ fl.q # "bad") => (S[i].diag /\ S[i].records = "none")))   \* stdin: never a prefix, needs -t
+  /\ (fl.q \in {"empty", "err", "bad"}) => \A i \in 1..Len(S) : S[i].records = "none"
+  /\ (fl.q = "bad") => \A i \in 1..Len(S) : ~S[i].visit /\ ~S[i].diag                          \* a malformed expression: nothing is touched
+Emit == (EmitOn /\ Ready) => PrintT(ToJson([fam |-> "C20.cli", tree |-> Trees[ti], flags |-> fl, spec |-> S, gdiag |-> GlobalDiag(fl)]))
 =============================================================================
